@@ -49,7 +49,7 @@ theorem C20_signal_first_and_after_complete (s s' : St) (hr : Reachable s) (a x 
   have hinv := inv_of_reachable hr
   have hi := hinv.ops x
   have hb := hinv.nobug
-  obtain ⟨i1, i2, i3, i4, i5, i6, i7, i8, i9, i10, i11, i12, i13⟩ := hi
+  obtain ⟨i1, i2, i3, i4, i5, i6, i7, i8, i9, i10, i11, i12, i13, _, _⟩ := hi
   simp only [step] at h
   split at h
   case isFalse => simp at h
@@ -276,6 +276,55 @@ theorem C20_pinned_tree_double_completion :
 /-- … and the repaired tree rejects that very log (at the third event). -/
 theorem C20_repaired_rejects_pinned_log : runLog step (init false) pinnedLog = none := by decide
 
+/-! ## The adaptor keeps the operation's arguments until the transfer is over -/
+
+/-- MPI's report is the only source of `mpiDone`: a step that makes operation `x`'s request count as
+    complete is one of the four events that carry MPI's own report for `x` (the early poll, the
+    `yield_while` poll, `MPI_Testsome`/`MPI_Testany` in the multi-threaded poller, `MPI_Testany` in
+    the single-threaded poller). -/
+theorem C20_complete_only_by_mpi_report (s s' : St) (e : Ev) (x : Nat) (h : step s e = some s')
+    (h0 : (s.op x).mpiDone = false) (h1 : (s'.op x).mpiDone = true) :
+    (∃ a, e = .eager a x) ∨ (∃ a, e = .ydone a x) ∨ (∃ a st, e = .ready a x st) ∨ (∃ a st, e = .testany a x st) := by
+  cases e <;> simp only [step] at h
+  all_goals (repeat' split at h)
+  all_goals first | (simp at h; done) | skip
+  all_goals (
+    injection h with h
+    subst h
+    try simp only [setOp, upd] at h1)
+  all_goals first
+    | (rw [h0] at h1; simp at h1; done)
+    | (split at h1
+       · rename_i hx; subst hx; first | (simp at h1 ; rw [h0] at h1; simp at h1; done) | (simp at h1; done) | simp
+       · rw [h0] at h1; simp at h1)
+
+/-- **Arguments are held until MPI has reported completion (state form).**  In every reachable state
+    the adaptor has released the stored arguments of an operation at most once, and — unless the
+    MPI call itself returned an error — only after MPI reported that operation's request complete. -/
+theorem C20_arguments_held_until_complete (s : St) (hr : Reachable s) (x : Nat) :
+    (s.op x).rel ≤ 1 ∧ ((s.op x).rel ≠ 0 → (s.op x).okPost = true → (s.op x).mpiDone = true) := by
+  have hi := (inv_of_reachable hr).ops x
+  exact ⟨hi.relOnce, hi.relMpi⟩
+
+/-- **… (step form).**  Whenever the model accepts the release of operation `x`'s arguments it is
+    the first release of that operation, the operation exists, and its request has been reported
+    complete by MPI (or the MPI call was never posted successfully). -/
+theorem C20_release_first_and_after_complete (s s' : St) (a x : Nat) (h : step s (.rel a x) = some s') :
+    x < s.n ∧ (s.op x).rel = 0 ∧ ((s.op x).okPost = true → (s.op x).mpiDone = true) ∧ (s'.op x).rel = 1 := by
+  simp only [step] at h
+  split at h
+  case isFalse => simp at h
+  rename_i hg
+  simp only [Option.some.injEq] at h
+  subst h
+  obtain ⟨g1, g2, g3⟩ := hg
+  refine ⟨g1, g2, ?_, by simp [setOp, upd_same]⟩
+  intro hok
+  rcases g3 with g3 | g3
+  · rw [g3] at hok; simp at hok
+  · exact g3
+
+
 /-! ## Non-vacuity -/
 
 /-- continuation mode, multi-threaded poller: register, poll, complete, invoke, signal, wait returns -/
@@ -299,5 +348,19 @@ example : (runLog step (init false) exampleLog2).isSome = true := by decide
 example : runLog step (init false)
     [.pollOn 0 false, .post 1 0 mCont true, .reg 1 0, .gacInc 1 0, .ifInc 1 0 1, .enq 1 0, .waitRet 0 0 0] = none := by
   decide
+
+/-- new_task mode with an owned argument: the release is accepted after MPI's report (inside the
+    callback) … -/
+example : (runLog step (init false)
+    [.pollOn 0 false, .post 1 0 mNewTask true, .reg 1 0, .gacInc 1 0, .ifInc 1 0 1, .enq 1 0,
+     .lock 2, .q2v 2 0, .ready 2 0 0, .unlock 2, .deq 2 0 0, .ifDec 2 0 0, .call 2 0, .cb 2 0 0,
+     .rel 2 0, .ret 2 0, .gacDec 2 0, .sig 3 0]).isSome = true := by decide
+
+/-- … and a release at registration time, while the request is still in flight, is not a behaviour
+    of the model; nor is a second release. -/
+example : runLog step (init false)
+    [.pollOn 0 false, .post 1 0 mNewTask true, .reg 1 0, .rel 1 0] = none := by decide
+example : runLog step (init false)
+    [.post 1 0 mYield true, .ydone 1 0, .sig 1 0, .rel 1 0, .rel 1 0] = none := by decide
 
 end PikaVerif.C20
